@@ -41,6 +41,9 @@ type Contract struct {
 	NoInline    bool
 	Safe        bool // emit safe.* obligations for this function
 	Fresh       []string // result expressions that are freshly allocated
+	Props       []string // properties this function is verified for
+	Probes      []*Clause
+	Implements  string // key of an interface contract this function must refine
 	File        string
 	Line        int
 	PkgPath     string
@@ -93,7 +96,7 @@ func NewContractSet() *ContractSet {
 
 var labelRe = regexp.MustCompile(`^(\{[A-Z0-9, ]+\}\s*)?([A-Za-z][A-Za-z0-9_.\-]*):(\s|$)`)
 var propsRe = regexp.MustCompile(`^\{([A-Z0-9, ]+)\}\s*`)
-var keywordRe = regexp.MustCompile(`^(import|ghost|uninterp|spec|func|iface|requires|guard|ensures|modifies|loop|pure|trusted|noinline|safe|fresh|lemma|params|results)\b`)
+var keywordRe = regexp.MustCompile(`^(import|ghost|uninterp|spec|func|iface|requires|guard|ensures|modifies|loop|pure|trusted|noinline|safe|fresh|lemma|params|results|props|probe|implements)\b`)
 
 // LoadFile parses one contract file. pkgPath is the import path of the package the file sits in
 // ("" for library spec files, where names must be qualified). trusted marks every contract assumed.
@@ -242,6 +245,27 @@ func (cs *ContractSet) LoadFile(file, pkgPath string, trusted bool) error {
 			for _, part := range splitTop(rest, ',') {
 				cur.Fresh = append(cur.Fresh, strings.TrimSpace(part))
 			}
+		case "props":
+			if cur == nil {
+				return fail(it, "props outside func")
+			}
+			for _, p := range strings.FieldsFunc(rest, func(r rune) bool { return r == ',' || r == ' ' }) {
+				cur.Props = append(cur.Props, p)
+			}
+		case "probe":
+			if cur == nil {
+				return fail(it, "probe outside func")
+			}
+			c, err := parseClause("probe", rest, file, it.line)
+			if err != nil {
+				return fail(it, "%v", err)
+			}
+			cur.Probes = append(cur.Probes, c)
+		case "implements":
+			if cur == nil {
+				return fail(it, "implements outside func")
+			}
+			cur.Implements = resolveFuncName(strings.TrimSpace(rest), pkgPath, imports)
 		case "pure":
 			if cur == nil {
 				return fail(it, "pure outside func")
